@@ -40,24 +40,29 @@ type Session struct {
 	AppDone  bool
 	ClosedAt time.Duration
 	PrevOpen bool // the previous connection of this side was still open when this one was handed out
+	Success  bool // every byte of the round was written and read and the final ack exchanged
 }
 
 // Scenario of the stack world.
 type Scenario struct {
 	Name string
 	Cfg  vrt.Config
-	// Rounds is the list of sessions: each has the write sizes client->server
-	// and server->client and who closes at the end.
-	Rounds    []Round
-	Faults    FaultCfg
-	Intruder  string // "", "before", "during", "after": a second client with the original passphrase
-	MaxVer    byte
-	AuthSize  int
-	Goal      func(w *World) bool
-	IdleAfter time.Duration
-	Final     []func(w *World, x *vrt.Exec)
-	Monitors  []func(w *World)
-	Owns      map[string]bool
+	// Round describes what every session transfers (the same every time, so
+	// that any two sessions pair up) and who hangs up first; Rounds is how
+	// many successful sessions each side wants; MaxAttempts bounds the
+	// accept / dial loops.
+	Round       Round
+	Rounds      int
+	MaxAttempts int
+	Faults      FaultCfg
+	Intruder    string // "", "before", "during", "after": a second client with the original passphrase
+	MaxVer      byte
+	AuthSize    int
+	Goal        func(w *World) bool
+	IdleAfter   time.Duration
+	Final       []func(w *World, x *vrt.Exec)
+	Monitors    []func(w *World)
+	Owns        map[string]bool
 }
 
 // Round is one session's application behaviour.
@@ -117,6 +122,7 @@ type World struct {
 
 	relayChecked int
 	intruderOn   bool
+	intruderDone bool
 }
 
 func (w *World) fail(key, format string, a ...any) {
@@ -242,8 +248,19 @@ func (w *World) newSession(side string, round int, list *[]*Session, conn net.Co
 	return ss
 }
 
-// runApp performs the round's writes and reads on a secured connection.
-func (w *World) runApp(ss *Session, out, in []int, tag string, closer bool) {
+// expected returns the bytes one direction of a round carries (the same in
+// every round, so that any two sessions pair up).
+func expected(tag string, sizes []int) []byte {
+	var out []byte
+	for i, n := range sizes {
+		out = append(out, marker(fmt.Sprintf("%s-%d", tag, i), n)...)
+	}
+	return out
+}
+
+// runApp performs the round's writes and reads on a secured connection and
+// reports whether the whole round (including the final ack) succeeded.
+func (w *World) runApp(ss *Session, out, in []int, outTag, inTag string, closer bool) bool {
 	total := 0
 	for _, n := range in {
 		total += n
@@ -253,7 +270,7 @@ func (w *World) runApp(ss *Session, out, in []int, tag string, closer bool) {
 	vrt.Go(ss.Side+"-writer", func() {
 		defer wg.Done()
 		for i, n := range out {
-			b := marker(fmt.Sprintf("%s-%d-%d", tag, ss.Round, i), n)
+			b := marker(fmt.Sprintf("%s-%d", outTag, i), n)
 			k, err := ss.Secured.Write(b)
 			w.mu.Lock()
 			if k > 0 && k <= n {
@@ -296,9 +313,10 @@ func (w *World) runApp(ss *Session, out, in []int, tag string, closer bool) {
 	vrt.Woke("app.join")
 	w.mu.Lock()
 	ss.AppDone = true
+	ok := ss.ReadErr == "" && ss.WriteErr == "" && len(ss.Read) == total
 	w.mu.Unlock()
 	switch {
-	case ss.ReadErr != "" || ss.WriteErr != "":
+	case !ok:
 		_ = ss.Secured.Close()
 	case closer:
 		// Like a request/response application, the side that hangs up
@@ -310,8 +328,10 @@ func (w *World) runApp(ss *Session, out, in []int, tag string, closer bool) {
 		w.mu.Lock()
 		if err != nil {
 			ss.ReadErr = "waiting for the final ack: " + err.Error()
+			ok = false
 		} else if n != 1 || buf[0] != '!' {
 			ss.ReadErr = fmt.Sprintf("final ack: got %d bytes %q", n, buf[:n])
+			ok = false
 		}
 		w.mu.Unlock()
 		_ = ss.Secured.Close()
@@ -320,6 +340,7 @@ func (w *World) runApp(ss *Session, out, in []int, tag string, closer bool) {
 		if err != nil {
 			w.mu.Lock()
 			ss.WriteErr = "final ack: " + err.Error()
+			ok = false
 			w.mu.Unlock()
 		}
 		// then wait for the peer to hang up (a read error), like a
@@ -330,24 +351,34 @@ func (w *World) runApp(ss *Session, out, in []int, tag string, closer bool) {
 	}
 	w.mu.Lock()
 	ss.ClosedAt = w.s.Now()
+	ss.Success = ok
 	w.mu.Unlock()
+	return ok
 }
 
-func (w *World) round(i int) (Round, bool) {
-	if i < len(w.sc.Rounds) {
-		return w.sc.Rounds[i], true
-	}
-	return Round{}, false
-}
-
-// serverLoop plays gRPC's server: Accept, handshake, serve, Accept again.
-func (w *World) serverLoop() {
-	good := 0
-	for attempt := 0; attempt < len(w.sc.Rounds)+4; attempt++ {
-		rd, ok := w.round(good)
-		if !ok {
-			return
+func (w *World) successes(list []*Session) int {
+	w.mu.Lock()
+	defer w.mu.Unlock()
+	n := 0
+	for _, s := range list {
+		if s.Success {
+			n++
 		}
+	}
+	return n
+}
+
+func (w *World) stopped() bool {
+	w.mu.Lock()
+	defer w.mu.Unlock()
+	return w.goalOK
+}
+
+// serverLoop plays gRPC's server: Accept, handshake, serve, Accept again, for
+// as long as the run lasts.
+func (w *World) serverLoop() {
+	rd := w.sc.Round
+	for attempt := 0; attempt < w.sc.MaxAttempts && !w.stopped(); attempt++ {
 		conn, err := w.srv.Accept()
 		if err != nil {
 			w.mu.Lock()
@@ -360,7 +391,7 @@ func (w *World) serverLoop() {
 			vrt.Point("server.retry")
 			continue
 		}
-		ss := w.newSession("server", good, &w.sessS, conn, w.cdS)
+		ss := w.newSession("server", attempt, &w.sessS, conn, w.cdS)
 		noise := mailbox.NewNoiseGrpcConn(w.cdS, w.noiseOpts()...)
 		sec, _, err := noise.ServerHandshake(conn)
 		if err != nil {
@@ -374,18 +405,25 @@ func (w *World) serverLoop() {
 		w.mu.Lock()
 		ss.Secured, ss.HsDone = sec, true
 		w.mu.Unlock()
-		w.runApp(ss, rd.S2C, rd.C2S, "S2C", rd.Closer == "server")
-		good++
+		w.runApp(ss, rd.S2C, rd.C2S, "S2C", "C2S", rd.Closer == "server")
 	}
 }
 
-// clientLoop plays gRPC's client: Dial, handshake, use, re-dial.
+// clientLoop plays gRPC's client: Dial, handshake, use, re-dial, until it has
+// completed the wanted number of rounds (and the run has settled).
 func (w *World) clientLoop() {
-	good := 0
-	for attempt := 0; attempt < len(w.sc.Rounds)+4; attempt++ {
-		rd, ok := w.round(good)
-		if !ok {
-			return
+	rd := w.sc.Round
+	for attempt := 0; attempt < w.sc.MaxAttempts && !w.stopped(); attempt++ {
+		if w.successes(w.sessC) >= w.sc.Rounds {
+			// give the server a moment to finish its side of the last
+			// session before deciding that another one is needed
+			for i := 0; i < 10 && w.successes(w.sessS) < w.sc.Rounds && !w.stopped(); i++ {
+				time.Sleep(time.Second)
+				vrt.Point("client.settle")
+			}
+			if w.successes(w.sessS) >= w.sc.Rounds {
+				return
+			}
 		}
 		conn, err := w.cl.Dial(w.rootCtx, "relay")
 		if err != nil {
@@ -396,7 +434,7 @@ func (w *World) clientLoop() {
 			vrt.Point("client.retry")
 			continue
 		}
-		ss := w.newSession("client", good, &w.sessC, conn, w.cdC)
+		ss := w.newSession("client", attempt, &w.sessC, conn, w.cdC)
 		noise := mailbox.NewNoiseGrpcConn(w.cdC, w.noiseOpts()...)
 		sec, _, err := noise.ClientHandshake(w.rootCtx, "relay", conn)
 		if err != nil {
@@ -412,9 +450,8 @@ func (w *World) clientLoop() {
 		w.mu.Lock()
 		ss.Secured, ss.HsDone = sec, true
 		w.mu.Unlock()
-		w.runApp(ss, rd.C2S, rd.S2C, "C2S", rd.Closer == "client")
-		good++
-		if w.sc.Intruder == "after" && good == 1 && !w.intruderOn {
+		ok := w.runApp(ss, rd.C2S, rd.S2C, "C2S", "S2C", rd.Closer == "client")
+		if ok && w.sc.Intruder == "after" && !w.intruderOn {
 			// the pairing is over: a stranger with the old passphrase
 			// shows up
 			w.intruderOn = true
@@ -423,12 +460,17 @@ func (w *World) clientLoop() {
 			w.mu.Unlock()
 			vrt.Go("intruder", func() { defer w.loopDone(); w.intruderAttempt() })
 		}
+		if !ok {
+			time.Sleep(time.Second)
+			vrt.Point("client.retry")
+		}
 	}
 }
 
 // intruderAttempt: a different client that only knows the original passphrase
 // tries to connect.
 func (w *World) intruderAttempt() {
+	defer func() { w.mu.Lock(); w.intruderDone = true; w.mu.Unlock() }()
 	key := privFrom("intruder")
 	var got [][]byte
 	cd := mailbox.NewConnData(&keychain.PrivKeyECDH{PrivKey: key}, nil, w.entropy, nil, nil,
